@@ -165,6 +165,13 @@ def run(fx, tier):
             decs = p.calls('decode_connack')
             from acks import opt_truth
             if decs and opt_truth(p, (decs[0].b, decs[0].i)) is True:
+                # a CONNACK rejected as malformed (reserved bits, inadmissible reason code ...) is not used at all:
+                # nothing of it may be recorded, so nothing is demanded on such a path
+                sh = p.entered('do_shutdown') + p.calls('do_shutdown')
+                if sh and all(ec_arg_class(p, p.arg(s_, 0)) == ('literal', 'malformed_packet') for s_ in sh) \
+                        and not any(is_call(it.x, 'session_present') and it.x.get('args') for it in p.evs()):
+                    v.ok('R-OWN', 'connect_op::on_connack%s:path%d [%s]' % (f.inst()[:30], pi, f.tu), 'CONNACK rejected as malformed: nothing recorded')
+                    continue
                 ok = any(is_call(it.x, 'session_present') and it.x.get('args') for it in p.evs())
                 v.check(ok, 'R-OWN', 'connect_op::on_connack%s:path%d [%s]' % (f.inst()[:30], pi, f.tu),
                         'every path with a decoded CONNACK records its Session Present flag',
